@@ -769,23 +769,64 @@ pub fn session_carried(a: &Analysis, c: usize) -> Option<bool> {
 
 /// Packets that occupy a Receive Maximum slot on connection `c`, in wire order; the flag says
 /// "carried over" (re-sent PUBLISH, or PUBREL of an exchange begun on an earlier connection).
-fn slot_takers<'a>(a: &'a Analysis, c: usize) -> Vec<(&'a WirePkt, bool)> {
-    let mut out = Vec::new();
+/// What occupies a slot on connection `c`: (sequence number from which, packet identifier,
+/// carried over from an earlier connection, marker of the operation if the packet has one).
+#[derive(Clone, Copy)]
+struct Taker {
+    seq: usize,
+    pid: u16,
+    carried: bool,
+    marker: Option<usize>,
+}
+
+fn slot_takers(a: &Analysis, c: usize) -> Vec<Taker> {
+    let mut out: Vec<Taker> = Vec::new();
     let carried_session = session_carried(a, c);
     if carried_session.is_none() {
         return out;
     }
     let carried_session = carried_session.unwrap();
+    // exchanges that are *between their phases* when connection c begins: a QoS 2 PUBLISH of
+    // the previous connection whose successful PUBREC the client consumed and whose PUBREL was
+    // never written there. Whether or not the caller ever submits that PUBREL (it may have
+    // abandoned the future), the PUBLISH is sent and not completed: it holds its slot from the
+    // first moment of the resumed connection.
+    let mut between: Vec<u16> = Vec::new();
+    if carried_session && c > 0 {
+        let prev = c - 1;
+        for w in a.wire.iter().filter(|w| w.conn == prev) {
+            if let Packet::Publish(x) = &w.pkt {
+                if x.qos == 2 {
+                    let id = x.pid.unwrap_or(0);
+                    let rec_ok = a.inbound.iter().any(|i| {
+                        i.p.conn == prev
+                            && matches!(&i.p.pkt, Some(Packet::Pubrec(r)) if r.pid == id && r.reason < 0x80)
+                            && i.avail_seq.map(|av| av > w.seq_first).unwrap_or(false)
+                            && a.conns[prev].consumed >= i.p.end
+                    });
+                    let rel_there = a.wire.iter().any(|y| y.conn == prev && y.off > w.off && matches!(&y.pkt, Packet::Pubrel(r) if r.pid == id));
+                    if rec_ok && !rel_there {
+                        between.push(id);
+                    }
+                }
+            }
+        }
+        let start = a.conns[c].connect_started.unwrap_or(0);
+        for id in &between {
+            out.push(Taker { seq: start, pid: *id, carried: true, marker: None });
+        }
+    }
     for w in a.wire.iter().filter(|w| w.conn == c) {
         match &w.pkt {
-            Packet::Publish(x) if x.qos > 0 => out.push((w, x.dup)),
+            Packet::Publish(x) if x.qos > 0 => out.push(Taker { seq: w.seq_first, pid: x.pid.unwrap_or(0), carried: x.dup, marker: marker_of(&w.pkt) }),
             Packet::Pubrel(r) => {
                 let rec_here = a.inbound.iter().any(|i| {
                     i.p.conn == c && matches!(&i.p.pkt, Some(Packet::Pubrec(x)) if x.pid == r.pid) && matches!(i.avail_seq, Some(av) if av < w.seq_first)
                 });
                 let pub_here = a.wire.iter().any(|x| x.conn == c && x.off < w.off && matches!(&x.pkt, Packet::Publish(pp) if pp.pid == Some(r.pid) && pp.qos == 2));
-                if !rec_here && !pub_here && carried_session {
-                    out.push((w, true));
+                // (an exchange counted as "between its phases" above already holds its slot)
+                if !rec_here && !pub_here && carried_session && !between.contains(&r.pid) {
+                    out.push(Taker { seq: w.seq_first, pid: r.pid, carried: true, marker: None });
                 }
             }
             _ => {}
@@ -806,15 +847,15 @@ pub fn c10(a: &Analysis, probe_from: Option<usize>) -> Vec<Violation> {
         // whose PUBREC did not arrive on c). Only a *new* PUBLISH can be a violation: what a
         // resumed session must re-send is not the library's choice.
         let takers = slot_takers(a, c);
-        let carried = takers.iter().filter(|t| t.1).count();
+        let carried = takers.iter().filter(|t| t.carried).count();
         if carried > r {
             continue; // the broker lowered R below what the session already has in flight
         }
         // replay takers and completions in sequence order; a completion frees the slot of the
         // exchange bearing its identifier (and nothing if no such exchange holds a slot here)
         let mut events: Vec<(usize, Option<(usize, bool)>, u16)> = Vec::new(); // (seq, taker(index, carried) | completion, pid)
-        for (n, (p, is_carried)) in takers.iter().enumerate() {
-            events.push((p.seq_first, Some((n, *is_carried)), p.pkt.pid().unwrap_or(0)));
+        for (n, t) in takers.iter().enumerate() {
+            events.push((t.seq, Some((n, t.carried)), t.pid));
         }
         for i in a.inbound.iter().filter(|i| i.p.conn == c && i.p.pkt.as_ref().map(is_completion).unwrap_or(false)) {
             if let (Some(av), Some(id)) = (i.avail_seq, i.p.pkt.as_ref().and_then(|p| p.pid())) {
@@ -823,14 +864,25 @@ pub fn c10(a: &Analysis, probe_from: Option<usize>) -> Vec<Violation> {
         }
         events.sort_by_key(|e| (e.0, e.1.is_some()));
         let mut held: Vec<u16> = Vec::new();
+        // an acknowledgement that overtakes the re-send it answers (the server acknowledged the
+        // original transmission) completes the carried exchange all the same
+        let mut early: Vec<u16> = Vec::new();
         for (_, what, id) in events {
             match what {
                 None => {
                     if let Some(pos) = held.iter().position(|x| *x == id) {
                         held.remove(pos);
+                    } else {
+                        early.push(id);
                     }
                 }
                 Some((n, is_carried)) => {
+                    if is_carried {
+                        if let Some(pos) = early.iter().position(|x| *x == id) {
+                            early.remove(pos);
+                            continue;
+                        }
+                    }
                     held.push(id);
                     if !is_carried && held.len() > r {
                         let class = if carried > 0 { "C10/exceeded/resumed-session" } else { "C10/exceeded" };
@@ -874,15 +926,20 @@ pub fn c10(a: &Analysis, probe_from: Option<usize>) -> Vec<Violation> {
     // (b) exactness at quiescence: probe epilogue
     if let Some(first) = probe_from {
         let probes: Vec<&OpView> = a.ops.values().filter(|o| o.idx >= first).collect();
-        if !probes.is_empty() && a.ctx_gone.is_none() && !a.run_returned() {
+        // (the probe runs on the connection served last; earlier ones may have been lost)
+        if !probes.is_empty() && a.ctx_gone.is_none() && a.conns.last().map(|c| c.run_returned.is_none()).unwrap_or(false) {
             // the probe runs on the last connection: slots in use there, carried-over ones included
             let last = a.conns.len().saturating_sub(1);
             let r = receive_max(a, last);
             let mut held: Vec<u16> = Vec::new();
             {
+                let mut carried_ids: Vec<u16> = Vec::new();
                 let mut events: Vec<(usize, bool, u16)> = Vec::new();
-                for (p, _) in slot_takers(a, last).iter().filter(|(p, _)| marker_of(&p.pkt).map(|m| m < first).unwrap_or(true)) {
-                    events.push((p.seq_first, true, p.pkt.pid().unwrap_or(0)));
+                for t in slot_takers(a, last).iter().filter(|t| t.marker.map(|m| m < first).unwrap_or(true)) {
+                    events.push((t.seq, true, t.pid));
+                    if t.carried {
+                        carried_ids.push(t.pid);
+                    }
                 }
                 for i in a.inbound.iter().filter(|i| i.p.conn == last && i.p.pkt.as_ref().map(is_completion).unwrap_or(false)) {
                     if let (Some(av), Some(id)) = (i.avail_seq, i.p.pkt.as_ref().and_then(|p| p.pid())) {
@@ -890,13 +947,27 @@ pub fn c10(a: &Analysis, probe_from: Option<usize>) -> Vec<Violation> {
                     }
                 }
                 events.sort_by_key(|e| (e.0, e.1));
+                let mut early: Vec<u16> = Vec::new();
                 for (_, taker, id) in events {
                     if taker {
+                        if carried_ids.contains(&id) {
+                            if let Some(pos) = early.iter().position(|x| *x == id) {
+                                early.remove(pos);
+                                continue;
+                            }
+                        }
                         held.push(id);
                     } else if let Some(pos) = held.iter().position(|x| *x == id) {
                         held.remove(pos);
+                    } else {
+                        early.push(id);
                     }
                 }
+            }
+            // (a CONNACK that lowers R below what the resumed session already has in flight:
+            // not judged, as in (a))
+            if slot_takers(a, last).iter().filter(|t| t.carried).count() > r {
+                return out;
             }
             let free = r.saturating_sub(held.len());
             let accepted = probes.iter().filter(|o| a.request_of(o.idx).len() == 1).count();
@@ -1850,7 +1921,8 @@ pub fn c17(a: &Analysis, sc: &Scenario) -> Vec<Violation> {
             }
         }
         let _ = old_end;
-        let reqs: Vec<&WirePkt> = a.requests(c).into_iter().filter(|w| !matches!(w.pkt, Packet::Connect(_))).collect();
+        // (CONNECT and the AUTH packets of an extended authentication exchange precede them)
+        let reqs: Vec<&WirePkt> = a.requests(c).into_iter().filter(|w| !matches!(w.pkt, Packet::Connect(_) | Packet::Auth(_))).collect();
         // re-sent packets = DUP publishes and PUBRELs for identifiers of the old connection
         let is_resend = |w: &WirePkt| match &w.pkt {
             Packet::Publish(p) => p.dup,
